@@ -323,6 +323,14 @@ pub fn run_parent(check: &dyn Check, o: &Opts) -> i32 {
     let nshards = check.shards(o.tier).max(1);
     let dir = runs_dir(id);
     let exe = std::env::current_exe().expect("current exe");
+    // stale witnesses of an earlier run must not be mistaken for this run's
+    if let Ok(rd) = std::fs::read_dir(&dir) {
+        for e in rd.flatten() {
+            if e.file_name().to_string_lossy().starts_with("violation-") {
+                let _ = std::fs::remove_file(e.path());
+            }
+        }
+    }
     let mut children = vec![];
     for shard in 0..nshards {
         let out = dir.join(format!("shard-{shard}.json"));
